@@ -104,3 +104,17 @@ Definition make_request (sysdefault : option Q) (pool : timeout) (r : reqt)
           end
       end
   end.
+
+(* the same request to an https origin through a CONNECT tunnel: for a new connection urlopen connects to the proxy and sets the
+   tunnel up (conn.connect() in _prepare_proxy) under the connect timeout of its own, never started, copy of the Timeout - before
+   _make_request copies the Timeout again and starts that copy's clock on a connection that is already there *)
+Definition tunnelled_request (sysdefault : option Q) (pool : timeout) (r : reqt)
+           (fresh : bool) (d : Q) (now : Q) : list event * outcome * Q :=
+  if fresh then
+    match get_timeout pool r with
+    | None => ([], OValueError, now)
+    | Some t0 =>
+        let '(evs, out, now') := make_request sysdefault pool r false 0 (now + d) in
+        (EConnect (resolve sysdefault (connect_timeout t0)) :: evs, out, now')
+    end
+  else make_request sysdefault pool r false 0 now.
